@@ -180,6 +180,17 @@ func runC13(w *World, r *Report) {
 					continue
 				}
 				ok, form := classifyStore(w, s)
+				if !ok && (s.Op == "+=" || s.Op == "|=") {
+					// reset-then-accumulate: the field is first assigned a constant on every path of this method and
+					// then only added to, so the final value does not depend on the value before the call
+					for _, e := range fs.Stores {
+						if e.Path == s.Path && e.Op == "=" && e.Guard == "" && !e.Loop && e.Seq < s.Seq {
+							if iv, isInt := e.Val.(IntV); isInt && iv.T != nil && iv.T.IsConst() {
+								ok, form = true, fmt.Sprintf("accumulated (%s) after an unconditional reset to %d at %s", s.Op, iv.T.C, w.Pos(e.Pos))
+							}
+						}
+					}
+				}
 				if ok {
 					r.OK("idempotent", subj, inst, w.Pos(s.Pos), form, true)
 				} else {
